@@ -13,6 +13,9 @@ NA = {
 }
 
 CHECKS = {
+    "C01": ("exploration", "Seeded search over generated driver definitions (inheritance depth <= 3, all five vector kinds, three switch rules, printf and sexagesimal formats, enabled flags on groups/vectors/elements, 1-3 devices) x operation histories (driver-side assign/set_value/bool_value/state/enabled/selected_value, client-side handshake and assign+submit, late client start, in-process snooping) x network schedules (8 fragmentation modes, 6 latency profiles incl. per-connection skew, 4 high-water marks, timer tie shuffling) on the real full stack; at every settle point every client's mirror and a reference mirror fed with the same messages are compared with the driver's state read through its public attributes.",
+            "Fault-free network; serialised messages stay below the 2048-character control threshold; number texts are compared with the library's own rendering; two known findings (K01, K02: state of BLOB vectors across the two connections) are suppressed by narrow signatures.",
+            "deterministic simulation of the full client/server stack with seeded network schedules; truth-vs-mirror comparison at quiescence"),
     "C02": ("exploration", "Seeded search over (message sequence, spelling, receive world, threshold, stream partition), including exhaustive 1-, 2- and 3-cut sweeps of short streams, through the real Buffer and the real server/client/TTY read loops on a simulated network and thread pool; delivered messages compared structurally with what was sent, promptness checked after every piece, step watchdog for termination. Sampling, not proof.",
             "Trusts the harness message grammar/spelling writer and the structural comparison; kernel TCP segmentation is modelled as arbitrary cuts (a superset).",
             "deterministic simulation (seeded stream-partition schedules on a virtual-time loop, fault-free) with structural reference comparison"),
